@@ -9,7 +9,8 @@ git -C /repo worktree add -q --detach $WT HEAD || exit 3
 cd $WT
 if ! git apply --check "$P" 2>/dev/null; then echo "PATCH DOES NOT APPLY"; cd /; git -C /repo worktree remove --force $WT; exit 3; fi
 git apply "$P"
-mkdir -p $ROOT/run; cd $ROOT && VERIF_REPO=$WT ./check $ID --tier $TIER > $ROOT/run/mut-$ID.out 2>&1; RC=$?
+mkdir -p $ROOT/run; cd $ROOT && VERIF_REPO=$WT ./check $ID --tier $TIER > $ROOT/run/mut-$$-$ID.out 2>&1; RC=$?
 git -C /repo worktree remove --force $WT
-grep -E "VIOLATION|KNOWN|INFRA" $ROOT/run/mut-$ID.out | head -3
+grep -E "VIOLATION|KNOWN|INFRA" $ROOT/run/mut-$$-$ID.out | head -3
+rm -f $ROOT/run/mut-$$-$ID.out
 echo "exit=$RC"
